@@ -365,29 +365,34 @@ Definition rdb_get_location (db : list kv) (m : mapid) (c : client) : result (op
         end
   end.
 
-Fixpoint cdb_loop (db : list kv) (m : mapid) (isv4 : bool) (maxmask cur : N) (masks : bytes)
+(* the loop over the prefix lengths; [lookup a len] is the exact get of the record of
+   the subnet (a, len) of the map: get db (net_key m a len) *)
+Fixpoint cdb_loop (lookup : N -> N -> option bytes) (isv4 : bool) (maxmask cur : N) (masks : bytes)
   : result (option bytes * N) :=
   match masks with
   | [] => Ok (None, 0)
   | mk :: rest =>
-      if maxmask <? mk then cdb_loop db m isv4 maxmask cur rest
-      else if isv4 && (mk <? 96) then cdb_loop db m isv4 maxmask cur rest
+      if maxmask <? mk then cdb_loop lookup isv4 maxmask cur rest
+      else if isv4 && (mk <? 96) then cdb_loop lookup isv4 maxmask cur rest
       else if 128 <? mk then Err 1
       else
         let cur' := clean_mask cur mk in
-        match get db (net_key m cur' mk) with
+        match lookup cur' mk with
         | Some v => Ok (Some v, mk)
-        | None => cdb_loop db m isv4 maxmask cur' rest
+        | None => cdb_loop lookup isv4 maxmask cur' rest
         end
   end.
 
+Definition cdb_maxmask (c : client) : N :=
+  ((c_size c) mod 256 + (if c_isv4 c && (c_maskbits c =? 32) then 96 else 0)) mod 256.
+
 Definition cdb_get_location (sep : bool) (db : list kv) (m : mapid) (c : client) : result (option bytes * N) :=
-  let maxmask := ((c_size c) mod 256 + (if c_isv4 c && (c_maskbits c =? 32) then 96 else 0)) mod 256 in
+  let maxmask := cdb_maxmask c in
   let isv4 := c_isv4 c && (96 <=? maxmask) in
   let bk := if sep then (if isv4 then [0; 52] else [0; 54]) else [0; 47] in
   match get db bk with
   | None => Ok (None, 0)
-  | Some masks => cdb_loop db m isv4 maxmask (c_addr c) masks
+  | Some masks => cdb_loop (fun a len => get db (net_key m a len)) isv4 maxmask (c_addr c) masks
   end.
 
 (* ---------------------------------------------------------------- findLocation and callers *)
